@@ -640,35 +640,84 @@ def eval_flatten(spec, drv):
             m["history"] = applied
             m["pre_uniquify"] = True
             R.materialized = m
+    go = flatten_round(nl, spec["ctr"], drv, R, 0)
+    # history AFTER the flatten, on the same Netlist object: public-API edits that bring hierarchy back
+    # (a new block of leaves and nets instantiated in the flat top, a new top around the old one, ...),
+    # uniquify, and a second, fully checked flatten
+    frounds = post_rounds(spec)
+    if frounds:
+        from engines import xform_hist as H
+        import random
+        prng = random.Random(stable_hash([spec.get("hist_seed", 0), "post"]))
+        papplied = []
+        for rno, ops in enumerate(frounds, 1):
+            if not go:
+                break
+            if ops is None:
+                ops = H.gen_ops(prng, nl, "p%d" % rno, U.MOD_NAME_UID, rehier=True)
+            papplied.append({"edits": H.apply_ops(nl, ops, "p%d" % rno)})
+            if H.live_unfold_size(nl, MAX_UNFOLD) is None:
+                R.tags.append("hist.stop:too-large-or-cyclic")
+                break
+            try:
+                U.uniquify(nl)
+            except Exception:  # noqa
+                R.tags.append("hist.stop:uniquify-raised")
+                break
+            R.tags.append("hist.post-round")
+            for op in papplied[-1]["edits"]:
+                R.tags.append("hist.op:" + op[0])
+            go = flatten_round(nl, F.mod_name_uid, drv, R, rno)
+        m = R.materialized if R.materialized is not None else dict(spec)
+        m = {k: v for k, v in m.items() if k not in ("post_rounds", "post_history")}
+        m.pop("hist_seed", None)
+        m["post_history"] = papplied
+        R.materialized = m
+    return R
+
+
+def post_rounds(spec):
+    if spec.get("post_history") is not None:
+        return [r.get("edits", []) for r in spec["post_history"]]
+    return [None] * int(spec.get("post_rounds", 0))
+
+
+def flatten_round(nl, ctr, drv, R, rno):
+    """One checked flatten of the live netlist: domain checks, independent elaboration taken just
+    before it, correspondence with the model on the dump taken now, the full C09 oracle after it.
+    Returns False when the history cannot go on."""
+    import spydrnet.flatten as F
+    tag = "" if rno == 0 else "@round%d" % rno
+    def stop(why):
+        if rno == 0:
+            R.skipped = why
+        else:
+            R.tags.append("hist.stop:" + why)
+        return False
     if canon.wf_problems(nl):
-        R.skipped = "input-not-wf"
-        return R
+        return stop("input-not-wf")
     if unique_problems(nl):
-        R.skipped = "input-not-uniquified"
-        return R
+        return stop("input-not-uniquified")
     try:
-        design, side = dump(nl, spec["ctr"])
+        design, side = dump(nl, ctr)
     except ValueError:
-        R.skipped = "input-out-of-domain"
-        return R
+        return stop("input-out-of-domain")
     n_inst = sum(len(D["children"]) for D in design["defs"])
     chk = drv.ask({"fn": "spec", "design": design, "flatFuel": n_inst + 5})
-    if "fragments" in chk:
+    if rno == 0 and "fragments" in chk:
         R.frag = {t: v for t, v in chk["fragments"].items() if not t.startswith("uniquify")}
     if "error" in chk or not (chk["wf"] and chk["idsUnique"] and chk["named"]):
-        R.skipped = "input-out-of-domain"
-        return R
+        return stop("input-out-of-domain")
     try:
         tree0, part0 = elaborate(nl, "name")
     except IllFormed:
-        R.skipped = "input-not-elaborable"
-        return R
+        return stop("input-not-elaborable")
     leaves0 = sorted(("/".join(k), v[2], v[3]) for k, v in tree0.items() if v[1])
     n_hier = sum(1 for v in tree0.values() if not v[1])
     depth = max([len(k) for k in tree0] or [0])
-    R.tags.append("flat.depth=%d" % depth)
-    R.tags.append("flat.hier=%d" % min(n_hier, 12))
-    R.nontrivial = n_hier > 0
+    R.tags.append("flat.depth%s=%d" % (tag and "@later", depth))
+    R.tags.append("flat.hier%s=%d" % (tag and "@later", min(n_hier, 12)))
+    R.nontrivial = R.nontrivial or n_hier > 0
 
     def ren(e):
         return ("p", ("/".join(e[1]),), e[2], e[3]) if e[0] == "p" else e
@@ -676,11 +725,11 @@ def eval_flatten(spec, drv):
     n_inst = sum(len(D["children"]) for D in design["defs"])
     ans = drv.ask({"fn": "flatten", "fuel": n_inst + 5, "design": design})
     if "error" in ans:
-        R.corr.append(("driver answers flatten", None, ans["error"], None))
-        return R
+        R.corr.append(("driver answers flatten" + tag, None, ans["error"], None))
+        return False
     if not ans["finished"]:
-        R.corr.append(("flatten model finished within |instances|+5 iterations", None, False, None))
-        return R
+        R.corr.append(("flatten model finished within |instances|+5 iterations" + tag, None, False, None))
+        return False
     mo = ans["design"]
     final_coll, transient_coll = joined_name_collisions(nl)
     frisk = flat_identifier_risk(design)
@@ -690,7 +739,7 @@ def eval_flatten(spec, drv):
         R.tags.append("flat.shell-name-collision-possible")
     if frisk:
         R.tags.append("flat.identifier-clash-possible")
-    F.mod_name_uid = spec["ctr"]
+    F.mod_name_uid = ctr
     try:
         F.flatten(nl)
     except Exception as e:  # noqa
@@ -698,63 +747,64 @@ def eval_flatten(spec, drv):
         if fam == "value" and final_coll:
             # two leaf occurrences (or two cables) have the same slash-joined name: the property is
             # unsatisfiable for this input (sibling names are unique); add_child / add_cable refuses
-            R.skipped = "domain:joined-names-collide(refused)"
+            stop("domain:joined-names-collide(refused)")
         elif fam == "value" and transient_coll:
             R.spec.append((SIG_FLAT_SHELL, "flatten raised ValueError: a hierarchical instance is parked in the top definition under its path name %r, which another instance carries; all final (leaf) names are distinct, the netlist is left half-flattened" % transient_coll[0]))
         elif fam == "value" and frisk:
             R.spec.append((SIG_FLAT_EID, "flatten raised ValueError: the renewed EDIF.identifier instance_/cable_sdn_flat_N is already carried (case-insensitively) by a sibling under the EDIF naming policy; the netlist is left half-flattened"))
         else:
-            R.spec.append(("flatten.raises." + fam, "flatten raised %s" % type(e).__name__))
-        return R
+            R.spec.append(("flatten.raises." + fam, "flatten raised %s%s" % (type(e).__name__, tag)))
+        return False
     if final_coll:
-        R.skipped = "domain:joined-names-collide"
-        return R
+        return stop("domain:joined-names-collide")
     # ---- correspondence
     cn = canon.cnetlist(nl)
     exp = rebuild(mo, side)
     dff = first_diff(cn, exp)
     if dff:
-        R.corr.append(("flatten post-state dump", dff, None, None))
+        R.corr.append(("flatten post-state dump" + tag, dff, None, None))
     if F.mod_name_uid != mo["ctr"]:
-        R.corr.append(("flatten name counter", F.mod_name_uid, mo["ctr"], None))
+        R.corr.append(("flatten name counter" + tag, F.mod_name_uid, mo["ctr"], None))
     refs = [len(d._references) for lib in nl._libraries for d in lib._definitions]
     mrefs = [mo["refcount"][x] for ids in mo["order"] for x in ids]
     if refs != mrefs:
-        R.corr.append(("flatten reference-set sizes", refs, mrefs, None))
+        R.corr.append(("flatten reference-set sizes" + tag, refs, mrefs, None))
     # ---- P
     wf = canon.wf_problems(nl)
     if wf:
-        R.spec.append(("flatten.wf." + wf[0].replace(" ", "_")[:40], "; ".join(wf[:3])))
+        R.spec.append(("flatten.wf." + wf[0].replace(" ", "_")[:40], "; ".join(wf[:3]) + tag))
     topdef = nl._top_instance._reference
     hier = [k.name for k in topdef._children if k._reference is None or not _is_leaf(k._reference)]
     if hier:
-        R.spec.append(("flatten.hierarchy_remains", "non-leaf children of top after flatten: %r" % hier[:3]))
+        R.spec.append(("flatten.hierarchy_remains", "non-leaf children of top after flatten: %r%s" % (hier[:3], tag)))
     leaves1 = sorted((k.name if k.name is not None else "<None>", id(k._reference), json.dumps(_data(k), sort_keys=True))
                      for k in topdef._children if k._reference is not None and _is_leaf(k._reference))
     if leaves1 != leaves0:
         a = [x for x in leaves0 if x not in leaves1]
         b = [x for x in leaves1 if x not in leaves0]
-        R.spec.append(("flatten.leaves_differ", "expected-only %r / found-only %r" % ([x[0] for x in a[:3]], [x[0] for x in b[:3]])))
+        R.spec.append(("flatten.leaves_differ", "expected-only %r / found-only %r" % ([x[0] for x in a[:3]], [x[0] for x in b[:3]]) + tag))
     elif not hier and not wf:
         try:
             tree1, part1 = elaborate(nl, "name")
             if part1 != part0n:
                 ks = sorted(set(part0n) ^ set(part1), key=repr)
                 if ks:
-                    R.spec.append(("flatten.conn.endpoints_differ", repr(ks[:2])))
+                    R.spec.append(("flatten.conn.endpoints_differ", repr(ks[:2]) + tag))
                 else:
                     ks = [e for e in part0n if part0n[e] != part1[e]]
-                    R.spec.append(("flatten.conn.partition_changed", "endpoint %r: class of %r -> class of %r" % (ks[0], part0n[ks[0]], part1[ks[0]])))
+                    R.spec.append(("flatten.conn.partition_changed", "endpoint %r: class of %r -> class of %r%s" % (ks[0], part0n[ks[0]], part1[ks[0]], tag)))
         except IllFormed as e:
-            R.spec.append(("flatten.elab.ill_formed", str(e)))
+            R.spec.append(("flatten.elab.ill_formed", str(e) + tag))
     try:
         d2, _ = dump(nl, 0)
         a2 = drv.ask({"fn": "spec", "design": d2})
         if not a2.get("wf"):
-            R.spec.append(("flatten.wf.lean_wfCheck", "Spec.WF false on the post-state dump"))
+            R.spec.append(("flatten.wf.lean_wfCheck", "Spec.WF false on the post-state dump" + tag))
     except Exception as e:  # noqa
-        R.spec.append(("flatten.wf.undumpable", type(e).__name__))
-    return R
+        R.spec.append(("flatten.wf.undumpable", type(e).__name__ + tag))
+    return not R.spec
+
+
 
 
 EVAL = {"C08": eval_uniquify, "C09": eval_flatten}
@@ -844,6 +894,17 @@ def _drop_def(spec, di):
 
 def candidates(spec):
     nd = len(spec["defs"])
+    for key in ("post_history",):
+        ph = spec.get(key)
+        if ph:
+            s = json.loads(json.dumps(spec))
+            s[key] = s[key][:-1]
+            yield s
+            for ri in range(len(ph) - 1, -1, -1):
+                for oi in range(len(ph[ri]["edits"]) - 1, -1, -1):
+                    s = json.loads(json.dumps(spec))
+                    del s[key][ri]["edits"][oi]
+                    yield s
     hist = spec.get("history")
     if hist:
         s = json.loads(json.dumps(spec))
@@ -1012,6 +1073,15 @@ def flat_identifier_risk(design):
 
 
 def gen_input(pid, rng, tier):
+    kind, s = gen_input0(pid, rng, tier)
+    if pid == "C09" and rng.random() < 0.12:
+        s["post_rounds"] = rng.choice([1, 1, 2])
+        s.setdefault("hist_seed", rng.randrange(1 << 30))
+        kind += "+reflatten"
+    return kind, s
+
+
+def gen_input0(pid, rng, tier):
     from engines import xform_gen as G
     size = 1.0 if tier == "quick" else rng.choice([1.0, 1.0, 1.5, 2.0])
     if pid == "C08":
